@@ -5,6 +5,7 @@ import YorkieModel.Driver.CrdtEngine
 import YorkieModel.Driver.DocUpdEngine
 import YorkieModel.Driver.ChangeStoreEngine
 import YorkieModel.Driver.LruEngine
+import YorkieModel.Driver.AccessEngine
 open Yorkie.Driver
 
 def engines : List (String × Engine) := [
@@ -13,7 +14,8 @@ def engines : List (String × Engine) := [
   ("docupd", DocUpdEngine.engine),
   ("store", ChangeStoreEngine.engine),
   ("storex", ChangeStoreEngine.engine),
-  ("lru", LruEngine.engine)
+  ("lru", LruEngine.engine),
+  ("access", AccessEngine.engine)
 ]
 
 partial def loop (e : Engine) (h : IO.FS.Stream) (out : IO.FS.Stream) (st : e.State) : IO Unit := do
